@@ -1,7 +1,9 @@
 /-
 C03 on workflows WITH LIMITED INTERNAL QUEUES (id C03Q) — no premature shutdown, no false stall, bounded response.
-Statements only, over the `Sched3Q` model (scheduler core + holds / stop / pause / restart + limited queues);
-proofs by reference to `Sched3QLemmasC03` (which builds on the C05S lemmas `Sched3QLemmas`).
+Statements only, over the `Sched3QR` model = `Sched3QT` (scheduler core + holds / stop / pause / restart + limited
+queues + manual triggers of pooled tasks, the model of C05S) with retry delays that are not over at once (an explicit
+clock: pending timers `hold`, op `tick`).  The primitives are those of `Sched3QT`; proofs by reference to
+`Sched3QTLemmasC03`, `Sched3QTLemmasC03b` (which build on the C05S lemmas `Sched3QTLemmas`) and `Sched3QRLemmas`.
 
 Reading of the property text for queues ("never leaves a task unsubmitted once it is ready ... within the
 runahead and queue limits"):
@@ -15,9 +17,9 @@ runahead and queue limits"):
   (`is_stalled_iff`, `stall_flag_only_if_stalled`, `no_stall_with_releasable`, `no_auto_shutdown_with_releasable`).
 `act s members` = number of pooled proxies with a name in `members` that count against the limit (C05S).
 -/
-import CylcModel.Sched3QLemmasC03b
+import CylcModel.Sched3QRLemmas
 namespace CylcModel.C03Q
-open CylcModel.Sched3Q
+open CylcModel.Sched3QT CylcModel.Sched3QR
 
 /-! ### What occupies a slot -/
 
@@ -155,80 +157,128 @@ theorem no_auto_shutdown_with_releasable (g : Graph) (s : State) :
   | true => exact absurd ⟨hw, hr⟩ ((autoShutdown_sound g s hc).2.1 x (get?_some_mem hx).1)
 
 
-/-! ### Whole operations: every op list is a sequence of `step`s, so these hold along every run -/
+/-! ### Retry timers and the manual-submit flag -/
+
+/-- **a task that only waits for its retry delay is never a reason to report a stall**: `is_stalled` is false as
+long as some released waiting proxy has its prerequisites satisfied - whatever its retry xtrigger says (the
+proxy's `retryWait`, the clock) and whatever else is in the pool (finished-incomplete tasks included) -/
+theorem no_stall_while_retry_pending (g : Graph) (s : State) (x : Proxy) (hx : x ∈ s.pool)
+    (hw : x.status = .waiting) (hr : x.runahead = false) (hp : x.prereqsSatisfied = true) :
+    isStalled g s = false ∧ (s.stalled = false → (checkStalled g s).stalled = false) := by
+  have hns : isStalled g s = false := by
+    cases hst : isStalled g s with
+    | false => rfl
+    | true => exact absurd ⟨hw, hr, hp⟩ (((isStalled_iff g s).mp hst).2.1 x hx)
+  refine ⟨hns, fun h0 => ?_⟩
+  cases hc : (checkStalled g s).stalled with
+  | false => rfl
+  | true => rw [(checkStalled_raises g s h0 hc).1] at hns; cases hns
+
+/-- **the clock**: the op `tick` leaves no retry timer pending (and touches nothing but the per-op logs), and with
+no timer pending the main loop is the zero-delay main loop of `Sched3QT`: its sweep satisfies every retry xtrigger -/
+theorem tick_ends_every_delay (gr : GraphR) (sr : StateR) (g : Graph) (s : State) :
+    (stepR gr sr .tick).hold = [] ∧ (stepR gr sr .tick).s = clearOp sr.s ∧ mainLoopR g [] s = mainLoop g s :=
+  ⟨rfl, rfl, mainLoopR_nil g s⟩
+
+/-- a pending timer belongs to a pooled proxy that waits on its retry xtrigger -/
+theorem pending_timers_are_retries (gr : GraphR) (sr : StateR) (op : OpR) :
+    ∀ k ∈ (stepR gr sr op).hold, ∃ y ∈ (stepR gr sr op).s.pool, (y.pt, y.name) = k ∧ y.retryWait = true :=
+  hold_spec gr sr op
+
+/-- **the manual-submit flag is cleared when the job is handed over**, so a manually triggered task that comes back
+(`waiting`, retry lined up) is queued like any other: `queue_if_ready` skips a proxy with the flag and queues a
+ready proxy without it -/
+theorem manual_flag_cleared_at_submission {st : State} {k : Key} {y : Proxy} (h : y ∈ (prepSubmit st k).pool)
+    (hk : (y.pt, y.name) = k) (hs : (st.get? k.1 k.2).isSome = true) :
+    y.manual = false ∧ y.status = .preparing :=
+  prepSubmit_manual h hk hs
+
+theorem queue_if_ready_and_the_manual_flag (s : State) (x : Proxy) :
+    (x.manual = true → queueIfReady s x = s) ∧
+    (x.manual = false → x.queued = false → x.runahead = false → x.isReadyToRun = true →
+      queueIfReady s x = (s.put (x.reset (queued := some true))).push x) :=
+  ⟨queueIfReady_manual s x, queueIfReady_ready s x⟩
+
+/-! ### Whole operations: every op list is a sequence of `stepR`s, so these hold along every run -/
 
 /-- **shutdown_sound**: a scheduler that was not asked to stop (no stop mode requested, no stop task) stops only in
 a main loop, with reason AUTOMATIC, in the pool the decision was taken on (after `compute_runahead` /
-`release_runahead_tasks`), and that pool has nothing preparing / submitted / running, no released waiting proxy,
-no finished-incomplete proxy and no proxy partially satisfied within the stop point; in particular no queue holds
-a ready task at that moment. Any graph, any queue table, any state, any operation (commands and restart included). -/
-theorem shutdown_sound (g : Graph) (s : State) (op : Op) (h0 : s.stop = none) (hm : s.stopMode = none)
-    (ht : s.stopTask = none) (h : (step g s op).stop.isSome = true) :
-    op = .loop ∧ (step g s op).stop = some "AUTOMATIC" ∧ ShutdownOK g (decision g (clearOp s)) ∧
-      (step g s op).pool = (decision g (clearOp s)).pool ∧
-      (step g s op).stopPoint = (decision g (clearOp s)).stopPoint ∧
-      ∀ k, ¬ Releasable (step g s op) k := by
-  by_cases hop : op = .loop
+`release_runahead_tasks`), and that pool has nothing preparing / submitted / running, no released waiting proxy
+(so none waiting for a retry delay either), no finished-incomplete proxy and no proxy partially satisfied within the
+stop point; in particular no queue holds a ready task at that moment. Any graph, any queue table, any state, any
+pending timers, any operation (commands, manual triggers, restart and clock ticks included). -/
+theorem shutdown_sound (gr : GraphR) (sr : StateR) (op : OpR) (h0 : sr.s.stop = none) (hm : sr.s.stopMode = none)
+    (ht : sr.s.stopTask = none) (h : (stepR gr sr op).s.stop.isSome = true) :
+    op = .base .loop ∧ (stepR gr sr op).s.stop = some "AUTOMATIC" ∧ ShutdownOK gr.g (decision gr.g (clearOp sr.s)) ∧
+      (stepR gr sr op).s.pool = (decision gr.g (clearOp sr.s)).pool ∧
+      (stepR gr sr op).s.stopPoint = (decision gr.g (clearOp sr.s)).stopPoint ∧
+      ∀ k, ¬ Releasable (stepR gr sr op).s k := by
+  by_cases hop : op = .base .loop
   · subst hop
-    have hstep : step g s .loop = mainLoop g (clearOp s) := rfl
+    have hstep : (stepR gr sr (.base .loop)).s = mainLoopW gr.g (sweepQueueR sr.hold) (clearOp sr.s) :=
+      mainLoopR_eq gr.g sr.hold (clearOp sr.s)
     rw [hstep] at h ⊢
-    obtain ⟨a, b, c, d⟩ := mainLoop_shutdown g (clearOp s) h0 hm ht h
+    obtain ⟨a, b, c, d⟩ := mainLoop_shutdown (swCT_sweepQueueR sr.hold) gr.g (clearOp sr.s) h0 hm ht h
     refine ⟨rfl, a, b, c, d, ?_⟩
     intro k ⟨q, _, _, x, hx, hw, hr, _⟩
     have hxm := (get?_some_mem hx).1
     rw [c] at hxm
     exact b.2.1 x hxm ⟨hw, hr⟩
   · exfalso
-    have := (step_other g s op hop).2 h
+    have := (stepR_other gr sr op hop).2 h
     rw [h0] at this; cases this
 
 /-- **stall_sound**: the stall flag goes up only in a main loop of a scheduler that is not paused, and then
 `StallSpec` holds of the pool at the decision point of that loop or of the pool the loop ends in (the two places
 `check_workflow_stalled` is called): nothing is preparing / submitted / running - so every queue has all its slots
-free -, no released waiting proxy has its prerequisites satisfied - so no queue holds a ready task -, and some
-proxy is incomplete or partially satisfied within the stop point. -/
-theorem stall_sound (g : Graph) (s : State) (op : Op) (hs : s.stalled = false)
-    (h : (step g s op).stalled = true) :
-    op = .loop ∧ s.paused = false ∧ (StallSpec g (decision g (clearOp s)) ∨ StallSpec g (step g s op)) := by
-  by_cases hop : op = .loop
+free -, no released waiting proxy has its prerequisites satisfied - so no queue holds a ready task and no task waits
+for a retry delay only -, and some proxy is incomplete or partially satisfied within the stop point. -/
+theorem stall_sound (gr : GraphR) (sr : StateR) (op : OpR) (hs : sr.s.stalled = false)
+    (h : (stepR gr sr op).s.stalled = true) :
+    op = .base .loop ∧ sr.s.paused = false ∧
+      (StallSpec gr.g (decision gr.g (clearOp sr.s)) ∨ StallSpec gr.g (stepR gr sr op).s) := by
+  by_cases hop : op = .base .loop
   · subst hop
-    have hstep : step g s .loop = mainLoop g (clearOp s) := rfl
+    have hstep : (stepR gr sr (.base .loop)).s = mainLoopW gr.g (sweepQueueR sr.hold) (clearOp sr.s) :=
+      mainLoopR_eq gr.g sr.hold (clearOp sr.s)
     rw [hstep] at h ⊢
-    obtain ⟨hp, hh⟩ := mainLoop_stalled g (clearOp s) hs h
+    obtain ⟨hp, hh⟩ := mainLoop_stalled (swCT_sweepQueueR sr.hold) gr.g (clearOp sr.s) hs h
     refine ⟨rfl, hp, ?_⟩
     rcases hh with hh | hh
-    · exact Or.inl ((isStalled_iff g _).mp hh)
-    · exact Or.inr ((isStalled_iff g _).mp hh)
+    · exact Or.inl ((isStalled_iff gr.g _).mp hh)
+    · exact Or.inr ((isStalled_iff gr.g _).mp hh)
   · exfalso
-    have := (step_other g s op hop).1 h
+    have := (stepR_other gr sr op hop).1 h
     rw [hs] at this; cases this
 
 /-- **bounded response over a whole main loop**: in a main loop of a scheduler that is neither paused nor stopping,
-started in a state satisfying the run invariants (independent queues), every proxy that sits in a queue once the
-loop has released runahead-limited tasks and swept the pool for ready tasks (`beforeRelease`), is waiting and is
-not held, is in the launch log of THIS main loop under its next submit number - or its queue is at its limit,
-counting the members preparing / submitted / running / awaiting preparation and what this loop released from it -/
-theorem main_loop_response {g : Graph} {s : State} (h : KeepQ g s) (hi : IndepSig (g.queues.map QDef.sig))
+started in a state satisfying the run invariants (independent queues), with any set of pending retry timers: every
+proxy that sits in a queue once the loop has released runahead-limited tasks and swept the pool for ready tasks
+(`beforeReleaseR`), is waiting and is not held, is in the launch log of THIS main loop under its next submit number -
+or its queue is at its limit, counting the members preparing / submitted / running / awaiting preparation and what
+this loop released from it -/
+theorem main_loop_response {g : Graph} {s : State} (hold : List Key) (h : KeepQ g s)
+    (hi : IndepSig (g.queues.map QDef.sig))
     (h0 : s.stop = none) (hp : s.paused = false) (hsm : (preLoop g s).stopMode = none)
-    (q : LQ) (hq : q ∈ (beforeRelease g s).qs) (k : Key) (hk : k ∈ q.deque) (x : Proxy)
-    (hx : (beforeRelease g s).get? k.1 k.2 = some x) (hw : x.status = .waiting) (hh : x.held = false) :
-    (x.pt, x.name, x.submitNum + 1) ∈ (mainLoop g s).launched ∨
-      (0 < q.limit ∧ q.limit ≤ act (beforeRelease g s) q.members +
-        ((releaseQueued (beforeRelease g s)).2.filter fun k => q.members.contains k.2).length) := by
+    (q : LQ) (hq : q ∈ (beforeReleaseR g hold s).qs) (k : Key) (hk : k ∈ q.deque) (x : Proxy)
+    (hx : (beforeReleaseR g hold s).get? k.1 k.2 = some x) (hw : x.status = .waiting) (hh : x.held = false) :
+    (x.pt, x.name, x.submitNum + 1) ∈ (mainLoopR g hold s).launched ∨
+      (0 < q.limit ∧ q.limit ≤ act (beforeReleaseR g hold s) q.members +
+        ((releaseQueued (beforeReleaseR g hold s)).2.filter fun k => q.members.contains k.2).length) := by
   have hc : canStop (preLoop g s) = false := by unfold canStop; rw [hsm]
-  obtain ⟨hl, hk2⟩ := mainLoop_launched h h0 hc
-  obtain ⟨_, _, c3, c4, _⟩ := ctl_parts (ct_sweepQueue (preLoop g s) (rfl : CT (ctl (preLoop g s)) (preLoop g s)))
+  obtain ⟨hl, hk2⟩ := mainLoop_launched (swKeep_sweepQueueR hold) h h0 hc
+  obtain ⟨_, _, c3, c4, _⟩ := ctl_parts (swCT_sweepQueueR hold _ (preLoop g s) (rfl : CT (ctl (preLoop g s)) (preLoop g s)))
   obtain ⟨_, _, _, d4, _⟩ := ctl_parts (ct_decision g s (rfl : CT (ctl s) s))
-  have hpp : (beforeRelease g s).paused = false := by
-    show (sweepQueue (preLoop g s)).paused = false
+  have hpp : (beforeReleaseR g hold s).paused = false := by
+    show (sweepQueueR hold (preLoop g s)).paused = false
     rw [c4, preLoop_eq, (shutdownBlock_fields g (decision g s)).2.2.2.1, d4, hp]
-  have hmm : (beforeRelease g s).stopMode = none := by
-    show (sweepQueue (preLoop g s)).stopMode = none
+  have hmm : (beforeReleaseR g hold s).stopMode = none := by
+    show (sweepQueueR hold (preLoop g s)).stopMode = none
     rw [c3, hsm]
-  have hrel : relStep (beforeRelease g s) = releaseAndSubmit (beforeRelease g s) := by
+  have hrel : relStep (beforeReleaseR g hold s) = releaseAndSubmit (beforeReleaseR g hold s) := by
     unfold relStep; simp [hpp, hmm]
-  rw [hl]
-  show _ ∈ (relStep (beforeRelease g s)).launched ∨ _
+  rw [mainLoopR_eq, hl]
+  show _ ∈ (relStep (beforeReleaseR g hold s)).launched ∨ _
   rw [hrel]
   exact release_step_response hk2 hi q hq k hk x hx hw hh
 
@@ -245,21 +295,23 @@ def exQ : Graph :=
                   (3, { pre := [], sui := [], children := [], nextParentless := none })],
         firstParentless := some 1, completion := CE.var "succeeded", outputs := [] }] }
 
+def exR : GraphR := { g := exQ }
+
 theorem exQ_indep : IndepSig (exQ.queues.map QDef.sig) := by
   unfold IndepSig; simp [exQ, QDef.sig]
 
 /-- 1/a is released, submitted, and fails (success required: it stays in the pool, incomplete) -/
-def opsFail : List Op := [.loop, .subres 1 "a" true 1, .msg 1 "a" 1 "failed", .loop]
+def opsFail : List OpR := [.base .loop, .base (.subres 1 "a" true 1), .base (.msg 1 "a" 1 "failed"), .base .loop]
 
 /-- the state after `opsFail`: 1/a failed and retained, 2/a and 3/a queued behind it -/
-def sFail : State := final exQ opsFail
+def sFail : State := (finalR exR opsFail).s
 
 example : (sFail.pool.map fun x => (x.pt, x.status, x.queued)) =
       [(1, .failed, false), (2, .waiting, true), (3, .waiting, true)] ∧
     (sFail.qs.map fun q => (q.name, q.deque)) = [("default", []), ("q", [(2, "a"), (3, "a")])] := by decide
 
 -- the hypotheses of `release_progress` / `release_step_response` / `release_some_when_free_slot` hold of `sFail`
-example : KeepQ exQ sFail := keepQ_run exQ opsFail sFail (final_mem_run exQ opsFail)
+example : KeepQ exQ sFail := keepQ_runR exR opsFail _ (finalR_mem_runR exR opsFail)
 
 -- the failed member does not count: the queue is charged 0, has a free slot, and the release step launches 2/a -
 -- while 3/a stays queued with the queue at its limit (0 counted + 1 released = limit 1)
@@ -268,7 +320,8 @@ example : act sFail ["a"] = 0 ∧ (releaseQueued sFail).2 = [(2, "a")] ∧
     ((releaseAndSubmit sFail).qs.map fun q => q.deque) = [[], [(3, "a")]] := by decide
 
 -- ... and so does the next main loop of the run (bounded response over the whole loop on this run)
-example : (step exQ sFail .loop).launched = [(2, "a", 1)] ∧ (step exQ sFail .loop).stalled = false := by decide
+example : (stepR exR (finalR exR opsFail) (.base .loop)).s.launched = [(2, "a", 1)] ∧
+    (stepR exR (finalR exR opsFail) (.base .loop)).s.stalled = false := by decide
 
 -- `Releasable` is satisfiable: 2/a in `sFail`; no stall, no automatic shutdown there
 example : Releasable sFail (2, "a") := by
@@ -285,27 +338,68 @@ example : Releasable sFail (2, "a") := by
 /-- a single cycle: after the failure nothing can run, and the stall flag goes up (a genuine stall) -/
 def exQ1 : Graph := { exQ with fcp := 1, seqs := [[1]], stopPoint := some 1, runahead := 1 }
 
-example : ((run exQ1 (opsFail ++ [.loop])).map fun s => s.stalled) = [false, false, false, false, false, true] := by
-  decide
+example : ((runR { g := exQ1 } (opsFail ++ [.base .loop])).map fun sr => sr.s.stalled) =
+    [false, false, false, false, false, true] := by decide
 
 -- `check_auto_shutdown` says yes on a reachable state with a limited queue: stop point before the first cycle, the
 -- pool holds one runahead-limited proxy and the first main loop shuts down
 def exQ0 : Graph := { exQ1 with stopPoint := some 0 }
 
 example : (checkAutoShutdown exQ0 (releaseRunahead exQ0 (computeRunahead exQ0 (init exQ0))).1).2 = true ∧
-    (step exQ0 (init exQ0) .loop).stop = some "AUTOMATIC" := by decide
+    (stepR { g := exQ0 } (initR { g := exQ0 }) (.base .loop)).s.stop = some "AUTOMATIC" := by decide
 
+-- `stall_sound` / `shutdown_sound`: their hypotheses are met by reachable states
+example : (finalR { g := exQ1 } opsFail).s.stalled = false ∧
+    (stepR { g := exQ1 } (finalR { g := exQ1 } opsFail) (.base .loop)).s.stalled = true := by decide
+example : (initR { g := exQ0 }).s.stop = none ∧ (initR { g := exQ0 }).s.stopMode = none ∧
+    (initR { g := exQ0 }).s.stopTask = none ∧
+    (stepR { g := exQ0 } (initR { g := exQ0 }) (.base .loop)).s.stop.isSome = true := by decide
 
--- `stall_sound` / `shutdown_sound`: their hypotheses are met by reachable states (the stall flag goes up in the last
--- loop of `opsFail ++ [.loop]` on `exQ1`; `exQ0` stops by itself in its first loop, from a state with no stop
--- mode and no stop task)
-example : (final exQ1 opsFail).stalled = false ∧ (step exQ1 (final exQ1 opsFail) .loop).stalled = true := by decide
-example : (init exQ0).stop = none ∧ (init exQ0).stopMode = none ∧ (init exQ0).stopTask = none ∧
-    (step exQ0 (init exQ0) .loop).stop.isSome = true := by decide
-
--- `main_loop_response`: `sFail` (after its op, the launch log is cleared by the next `step`) meets the hypotheses:
--- not stopped, not paused, no shutdown decided; 2/a and 3/a sit in queue q before the release
+-- `main_loop_response`: `sFail` meets the hypotheses: not stopped, not paused, no shutdown decided; 2/a and 3/a sit
+-- in queue q before the release
 example : (clearOp sFail).stop = none ∧ (clearOp sFail).paused = false ∧ (preLoop exQ (clearOp sFail)).stopMode = none ∧
-    ((beforeRelease exQ (clearOp sFail)).qs.map fun q => q.deque) = [[], [(2, "a"), (3, "a")]] := by decide
+    ((beforeReleaseR exQ [] (clearOp sFail)).qs.map fun q => q.deque) = [[], [(2, "a"), (3, "a")]] := by decide
+
+/-- two parallel tasks in one cycle; `b` has one execution retry with a non-zero delay -/
+def exRetry : GraphR :=
+  { g := { icp := 1, fcp := 1, start := 1, runahead := 1, seqs := [[1]], stopPoint := some 1,
+           queues := [{ name := "default", limit := 2, members := ["a", "b"] }],
+           tasks := [
+             { name := "a", insts := [(1, { pre := [], sui := [], children := [], nextParentless := none })],
+               firstParentless := some 1, completion := CE.var "succeeded", outputs := [] },
+             { name := "b", insts := [(1, { pre := [], sui := [], children := [], nextParentless := none })],
+               firstParentless := some 1, completion := CE.var "succeeded", outputs := [], execRetries := 1 }] },
+    execLong := ["b"] }
+
+/-- both jobs fail: 1/a for good (finished, incomplete), 1/b with its retry lined up; two quiet main loops; the
+clock moves on; one more main loop -/
+def opsRetry : List OpR :=
+  [.base .loop, .base (.subres 1 "a" true 1), .base (.subres 1 "b" true 1), .base (.msg 1 "a" 1 "failed"),
+   .base (.msg 1 "b" 1 "failed"), .base .loop, .base .loop, .base .loop, .tick, .base .loop]
+
+-- the retry timer of 1/b is pending over the quiet loops, no stall is reported although 1/a is incomplete and
+-- nothing is active (`no_stall_while_retry_pending`), nothing is launched; the tick ends the delay and the next
+-- main loop submits the second try
+example : ((runR exRetry opsRetry).map fun sr => (sr.hold, sr.s.stalled, sr.s.launched)) =
+    [([], false, []), ([], false, [(1, "a", 1), (1, "b", 1)]), ([], false, []), ([], false, []), ([], false, []),
+     ([], false, []), ([(1, "b")], false, []), ([(1, "b")], false, []), ([(1, "b")], false, []), ([], false, []),
+     ([], false, [(1, "b", 2)])] := by decide
+
+/-- one task with a zero-delay retry, triggered by hand before the first main loop -/
+def exTrig : GraphR :=
+  { g := { icp := 1, fcp := 1, start := 1, runahead := 1, seqs := [[1]], stopPoint := some 1,
+           queues := [{ name := "default", limit := 1, members := ["a"] }],
+           tasks := [
+             { name := "a", insts := [(1, { pre := [], sui := [], children := [], nextParentless := none })],
+               firstParentless := some 1, completion := CE.var "succeeded", outputs := [], execRetries := 1 }] } }
+
+-- the trigger sets the manual-submit flag, the hand-over of job 01 clears it, and after the failure the retry is
+-- queued and submitted as job 02 (`manual_flag_cleared_at_submission`, `queue_if_ready_and_the_manual_flag`)
+example : ((runR exTrig [.base (.trigger [(1, "a")]), .base .loop, .base (.subres 1 "a" true 1),
+      .base (.msg 1 "a" 1 "failed"), .base .loop, .base .loop]).map fun sr =>
+        (sr.s.pool.map fun x => (x.manual, x.status), sr.s.launched)) =
+    [([(false, .waiting)], []), ([(true, .waiting)], []), ([(false, .preparing)], [(1, "a", 1)]),
+     ([(false, .submitted)], []), ([(false, .submitted)], []), ([(false, .waiting)], []),
+     ([(false, .preparing)], [(1, "a", 2)])] := by decide
 
 end CylcModel.C03Q
